@@ -59,6 +59,30 @@ class Opaque:
         return "Opaque(%s)" % self.tag
 
 
+class ArrV:
+    """Vec<u8> / [u8] of symbolic length as an SMT array (index: 64-bit) - used where positions are symbolic and unbounded"""
+    self_ref = True
+
+    def __init__(self, arr, length):
+        self.arr, self.length = arr, length
+
+    def at(self, i):
+        if z3.is_bv(i) and i.size() < 64:
+            i = z3.ZeroExt(64 - i.size(), i)
+        return z3.Select(self.arr, i)
+
+    def store(self, i, v):
+        if z3.is_bv(i) and i.size() < 64:
+            i = z3.ZeroExt(64 - i.size(), i)
+        return ArrV(z3.Store(self.arr, i, v), self.length)
+
+    def length64(self):
+        return self.length
+
+    def __repr__(self):
+        return "ArrV(len=%s)" % (self.length,)
+
+
 class IterV(Opaque):
     """core::slice::Iter<'_, u8> over a slice value (kept compatible with the older Opaque("iter", slice) form)"""
 
@@ -160,6 +184,8 @@ class State:
 
 
 class Outcome:
+    stop = None
+
     def __init__(self, st, ret=None, panic=None):
         self.st, self.ret, self.panic = st, ret, panic
 
@@ -300,6 +326,8 @@ class Executor:
                 if not z3.is_bv(idx):
                     raise Unsupported("index operand %r" % (idx,))
                 val = val.at(idx)
+            elif p[0] == "aidx" and hasattr(val, "at"):
+                val = val.at(p[1])
             else:
                 raise Unsupported("projection %r" % (p,))
         return val
@@ -330,6 +358,11 @@ class Executor:
                 self.write_ref(st, val, proj[1:], new)
                 return val
             raise Unsupported("deref write on %r" % (val,))
+        if p[0] in ("index", "aidx") and isinstance(val, ArrV):
+            idx = st.frames[-1].get(p[1], UNINIT) if p[0] == "index" else p[1]
+            if not z3.is_bv(idx) or len(proj) != 1:
+                raise Unsupported("array element write with index %r" % (idx,))
+            return val.store(idx, new)
         if p[0] == "downcast":
             if not isinstance(val, EnumV):
                 raise Unsupported("downcast write on %r" % (val,))
@@ -454,6 +487,16 @@ class Executor:
                 continue
             if t.kind == "return":
                 return [(st, st.frames[-1].get(0, UNIT))]
+            if t.kind == "call" and t.target is not None:
+                argv = [self.eval_operand(st, f, a) for a in t.args]
+                rs = self.call(st, f, t.func, t.args, argv, 0)
+                if len(rs) != 1 or rs[0].panic is not None:
+                    raise Unsupported("call in promoted constant is not a single value")
+                st = rs[0].st
+                if t.dest is not None:
+                    self.write_place(st, f, t.dest, rs[0].ret)
+                bb = t.target
+                continue
             raise Unsupported("terminator in promoted constant")
 
     def eval_operand(self, st, f, op):
@@ -494,14 +537,22 @@ class Executor:
                 return z3.Not(a) if z3.is_bool(a) else ~a
             if rv.op == "Neg":
                 return -a
-            if rv.op == "PtrMetadata" and hasattr(a, "length64"):
-                return a.length64()
+            if rv.op == "PtrMetadata":
+                a = self.deref_val(st, a)
+                if hasattr(a, "length64"):
+                    return a.length64()
             raise Unsupported("unary op %s" % rv.op)
         if k == "discriminant":
             v = self.read_place(st, f, rv.place)
             if not isinstance(v, EnumV):
                 raise Unsupported("discriminant of %r" % (v,))
-            return z3.BitVecVal(v.disc, 64) if isinstance(v.disc, int) else v.disc
+            d = z3.BitVecVal(v.disc, 64) if isinstance(v.disc, int) else v.disc
+            if v.ety == "Ordering":
+                d = d - 1            # Less = -1, Equal = 0, Greater = 1
+            w = INT_TY[dest_ty.strip()][0] if dest_ty and dest_ty.strip() in INT_TY else 64
+            if w < 64:
+                d = z3.Extract(w - 1, 0, d)
+            return z3.simplify(d) if v.ety == "Ordering" or w < 64 else d
         if k == "cast":
             a = self.eval_operand(st, f, rv.a)
             if rv.how in ("IntToInt",):
@@ -539,6 +590,10 @@ class Executor:
     def normalize_ref(self, st, ref):
         """push leading derefs through: &(*_1).0 where _1 is a RefV -> RefV into the referent"""
         fr, local, proj = ref.frame, ref.local, list(ref.proj)
+        # an index by a local is frozen at its current value (the reference outlives later changes of that local)
+        proj = [("aidx", st.frames[fr].get(p[1], UNINIT)) if p[0] == "index" else p for p in proj]
+        if any(p[0] == "aidx" and not z3.is_bv(p[1]) for p in proj):
+            raise Unsupported("reference to an element with a non-scalar index")
         while True:
             # find first deref
             idx = next((i for i, p in enumerate(proj) if p[0] == "deref"), None)
@@ -548,6 +603,8 @@ class Executor:
             v = self._get(st, fr, base, proj[:idx], None)
             if isinstance(v, RefV):
                 fr, local, proj = v.frame, v.local, v.proj + proj[idx + 1:]
+            elif isinstance(v, ArrV) and idx + 1 < len(proj):
+                raise Unsupported("reference into an array through a slice value")
             elif isinstance(v, (SeqV, Opaque)) or getattr(v, "self_ref", False):
                 return v
             else:
@@ -660,6 +717,8 @@ class Executor:
         c = callee.strip()
         if c in self.funcs:
             return self.funcs[c]
+        if re.match(r"^<&*(?:mut )?(?:[iu](?:8|16|32|64|128|size)|bool|char|str|\[u8\]|f32|f64)(?:\W| as )", c):
+            return None          # a trait method of a primitive type is never one of the crate's functions
         plain = strip_generics(c).strip()
         while plain.endswith("::"):
             plain = plain[:-2].strip()
@@ -687,22 +746,32 @@ class Executor:
         return None
 
     # ------------------------------------------------------------ execution
-    def run(self, f, argvals, st, depth=0, subst=None):
-        """execute function f on argvals from state st; returns [Outcome]"""
+    def run(self, f, argvals, st, depth=0, subst=None, start_bb=0, stop_at=(), resume=False):
+        """execute function f on argvals from state st; returns [Outcome].
+        Segments (loop reasoning): with resume=True the top frame of st is f's frame and execution starts at start_bb; a path that
+        reaches a block in stop_at (other than as its very first block) ends there with Outcome.stop = that block, frame kept."""
         if depth > 40:
             raise Unsupported("call depth")
         st = st.clone()
-        frame = {}
-        if subst:
-            frame["__subst"] = subst
-        for (loc, _), v in zip(f.args, argvals):
-            frame[loc] = v
-        st.frames.append(frame)
+        if not resume:
+            frame = {}
+            if subst:
+                frame["__subst"] = subst
+            for (loc, _), v in zip(f.args, argvals):
+                frame[loc] = v
+            st.frames.append(frame)
         outs = []
-        work = [(st, 0, {})]
+        work = [(st, start_bb, {})]
+        first = True
         while work:
             s, bb, seen = work.pop()
             while True:
+                if bb in stop_at and not first:
+                    o = Outcome(s)
+                    o.stop = bb
+                    outs.append(o)
+                    break
+                first = False
                 self.blocks_visited += 1
                 key = bb
                 cnt = seen.get(key, 0)
